@@ -547,9 +547,14 @@ class Impl:
             cc = ("left" if f.closed == "left" else "right") if c == "default" else c
             contiguous = all(ivs[i][1] == ivs[i + 1][0] for i in range(len(ivs) - 1))
             how = o.get("cuts", "breaks" if contiguous else "ii")
-            if how == "period" and d.name == "dt" and contiguous:
-                # PeriodIndex of hourly periods (the implementation closes the 1 ns gap between periods)
-                pi = pd.period_range(start=d.pt(ivs[0][0]), periods=len(ivs), freq="h")
+            unit = all(iv[1] - iv[0] == 1 and iv[0].denominator == 1 for iv in ivs)
+            if how == "period" and d.name == "dt" and unit:
+                # PeriodIndex of hourly periods (the implementation closes the 1 ns gap at the end of each period);
+                # the periods need not be consecutive
+                if contiguous and o.get("pform") != "list":
+                    pi = pd.period_range(start=d.pt(ivs[0][0]), periods=len(ivs), freq="h")
+                else:
+                    pi = pd.PeriodIndex([pd.Period(d.pt(iv[0]), freq="h") for iv in ivs])
                 slicer = f.slice(pi, closed=cc)
             elif how == "breaks" and contiguous:
                 breaks = [d.pt(ivs[0][0])] + [d.pt(iv[1]) for iv in ivs]
@@ -678,6 +683,28 @@ class Impl:
             return dunder[op](x, y)
         return dunder[op](x, y)
 
+    @staticmethod
+    def _check_index(res, pts):
+        """include_index=True: the result is indexed by the query points themselves (same labels, timezone kept)"""
+        if not hasattr(res, "index"):
+            raise ValueError("include_index: result has no index")
+        labels = list(res.index)
+        if len(labels) != len(pts):
+            raise ValueError("include_index: index length differs from the query")
+        for a, b in zip(labels, pts):
+            try:
+                if isinstance(b, (pd.Timestamp, np.datetime64)) or hasattr(b, "tzinfo"):
+                    a, b = pd.Timestamp(a), pd.Timestamp(b)
+                    same = (a.tzinfo is None) == (b.tzinfo is None) and a == b
+                elif isinstance(b, (pd.Timedelta, np.timedelta64)) or hasattr(b, "total_seconds"):
+                    same = pd.Timedelta(a) == pd.Timedelta(b)
+                else:
+                    same = bool(a == b)
+            except TypeError:
+                same = False
+            if not same:
+                raise ValueError(f"include_index: label {a!r} differs from the query point {b!r}")
+
     def evaluate(self, call, xs, form):
         d = self.dom
         pts = [d.pt(x) for x in xs]
@@ -691,6 +718,7 @@ class Impl:
             res = call(pd.Series(pts))
         elif form == "index":
             res = call(pts, include_index=True)
+            self._check_index(res, pts)
             return [val(v) for v in list(getattr(res, "values", res))]
         elif form == "indexscalar":
             out = []
@@ -699,6 +727,7 @@ class Impl:
                 vals_ = list(getattr(res, "values", [res]))
                 if len(vals_) != 1:
                     raise ValueError("include_index with a scalar must give one value")
+                self._check_index(res, [p])
                 out.append(val(vals_[0]))
             return out
         else:
